@@ -81,7 +81,16 @@ pub fn cases(rng: &mut Rng, count: usize, _tier: &str) -> Vec<Case> {
                 match rng.below(4) {
                     0 => queries.push(r.name.clone()),
                     1 | 2 => queries.push(sub_str(rng, &r.name)),
-                    _ => {}
+                    _ => {
+                        // the stored name in another ASCII casing: a different string
+                        let flipped: String = r
+                            .name
+                            .chars()
+                            .map(|c| if c.is_ascii_lowercase() { c.to_ascii_uppercase() } else { c.to_ascii_lowercase() })
+                            .collect();
+                        queries.push(flipped);
+                        queries.push(r.name.to_ascii_lowercase());
+                    }
                 }
             }
         }
